@@ -135,11 +135,14 @@ func loadProjectFromFile(inputFile string, opts *LoaderOptions) (*types.Project,
 		_ = godotenv.Load(opts.EnvFileNames...)
 	}
 
-	const envEscaped = "##PC_ENV_ESCAPED##"
-	// replace escaped $$ env vars in yaml
-	temp := strings.ReplaceAll(string(yamlFile), "$$", envEscaped)
-	temp = os.ExpandEnv(temp)
-	temp = strings.ReplaceAll(temp, envEscaped, "$")
+	// expand $VAR and ${VAR}; an escaped $$ yields a literal $ (os.Expand reads "$$" as the
+	// variable named "$", so no placeholder text has to be pushed through the expansion)
+	temp := os.Expand(string(yamlFile), func(name string) string {
+		if name == "$" {
+			return "$"
+		}
+		return os.Getenv(name)
+	})
 
 	project := &types.Project{
 		LogLength: defaultLogLength,
